@@ -59,6 +59,20 @@ def stripTagged : List Ty → List Ty
   | t :: ts => if t.zeroSize then stripTagged ts else strip t :: stripTagged ts
 end
 
+mutual
+/-- the same schema with every STRING made non-nullable.  A nullable string field may always carry a non-null
+string; the hand-written Conn codec writes every string non-null (an empty Go string as length 0, where the
+reflection codec writes null): its encoding is the reference encoding under `denull` of the golden schema. -/
+def denull : Ty → Ty
+  | .string c _ => .string c false
+  | .array c n e => .array c n (denull e)
+  | .struct f fs ids ts => .struct f (denullList fs) ids (denullList ts)
+  | t => t
+def denullList : List Ty → List Ty
+  | [] => []
+  | t :: ts => denull t :: denullList ts
+end
+
 def hintNullable : Option Ty → Bool
   | some (.string _ n) | some (.bytes _ n) | some (.array _ n _) => n
   | _ => false
